@@ -1,4 +1,7 @@
-(* KV.C04.Props — property theorems only. *)
+(* KV.C04.Props — property theorems only.
+   The tree at HEAD contains the fix 953436b (every in-memory publication after the database
+   commit): `steps_tree = steps_fixed`. The pre-fix order is kept as `steps_head` and the
+   `C04_prefix_*` theorems document the defect that was found and repaired. *)
 From Coq Require Import List NArith Bool.
 Import ListNotations.
 Require Import KV.C04.Model KV.C04.Proofs.
@@ -16,71 +19,69 @@ Theorem C04_op_failure_noop : forall steps s ops f,
   apply_ops (m_be s) ops = None -> run_txn steps s ops (TCommit f) = (s, false).
 Proof. exact op_failure_noop. Qed.
 
-(* FULL STATEMENT (commit order of the tree at HEAD). For every server whose memory reflects its
+(* FULL STATEMENT, commit order of the tree at HEAD. For every server whose memory reflects its
    database, every list of operations and every outcome (abandon anywhere; commit with a storage
-   failure at any storage call; commit without failure): what a later read transaction AND a
+   failure at ANY storage call; commit without failure): what a later read transaction AND a
    reopened server observe is either exactly what they observed before, or the commit reported
    success and they observe exactly the transaction's effect. *)
 Definition C04_full_statement : Prop :=
-  forall s ops o, coherent s -> atomic_for steps_head s ops o.
+  forall s ops o, coherent s -> atomic_for steps_tree s ops o.
+Theorem C04_commit_atomic : C04_full_statement.
+Proof. exact fixed_atomic. Qed.
 
-(* The faithful model REFUTES it: domain display name change, COMMIT fails. *)
-Theorem C04_refuted : ~ C04_full_statement.
+(* ... and memory keeps reflecting the database after every history of transactions with
+   arbitrary abandons, faults and restarts, so the hypothesis `coherent` is an invariant. *)
+Theorem C04_coherent_over_histories : forall h s, coherent s -> coherent (run_hist steps_tree s h).
+Proof. exact fixed_hist_coherent. Qed.
+
+(* The DATABASE is always before-or-after, from ANY server state and over unbounded histories:
+   what a reopened server is loaded from equals the effect of exactly those transactions whose
+   operations all succeeded and whose commit ran without fault; the backend's view of the
+   entries never differs from the database. (SQLite's rollback of a failed/dropped transaction
+   is the assumed part.) *)
+Theorem C04_database_exact_over_histories : forall h s, be_coherent s ->
+  disk (run_hist steps_tree s h) = spec_hist (disk s) h /\ be_coherent (run_hist steps_tree s h).
+Proof. exact (hist_disk_gen steps_fixed fixed_none fixed_fault_disk). Qed.
+
+(* Soundness of the run-time tie: whenever the implementation's observations agree with the
+   model of the tree, the property's executable predicate holds on them. *)
+Theorem C04_agree_implies_property : forall c : case, agree c = true -> pcheck c = true.
+Proof. exact agree_pcheck_fixed. Qed.
+
+(* ------------------------------------------------------------------ the pre-fix tree *)
+(* Same statement for the commit order before 953436b ... *)
+Definition C04_prefix_full_statement : Prop :=
+  forall s ops o, coherent s -> atomic_for steps_head s ops o.
+(* ... which the faithful model REFUTED (domain display name change, COMMIT fails) and the real
+   server confirmed. *)
+Theorem C04_prefix_refuted : ~ C04_prefix_full_statement.
 Proof.
   intros H.
   specialize (H (of_disk (mkcells [] false 0 [])) [ODomain 5] (TCommit (Some SDbCommit)) (coherent_of_disk _)).
   destruct H as [H|[H _]]; vm_compute in H; discriminate H.
 Qed.
-
-(* PARTIAL (everything outside the decidable class `exposed`: the failing storage call comes after
-   a publication that changed a setting): the full statement's conclusion holds. Missing for the
-   full statement: exactly the class `exposed`, which C04_exposed_is_torn shows to be violations. *)
-Theorem C04_commit_atomic_partial : forall s ops o, coherent s ->
+(* Outside the decidable class `exposed` (the failing storage call comes after a publication that
+   changed a setting) the old order was atomic too ... *)
+Theorem C04_prefix_commit_atomic_partial : forall s ops o, coherent s ->
   match o with TCommit f => exposed s ops f = false | TAbandon _ => True end ->
   atomic_for steps_head s ops o.
 Proof. exact head_partial. Qed.
-
-(* Inside the class the violation is real and has this exact shape: commit reports failure, a
+(* ... and inside it every case was a violation of this exact shape: commit reports failure, a
    reopened server and the entries readers see are as before, but readers are shown changed
    settings (access controls / domain info / OAuth2 clients) of the failed transaction. *)
-Theorem C04_exposed_is_torn : forall s ops k, coherent s -> exposed s ops (Some k) = true ->
+Theorem C04_prefix_exposed_is_torn : forall s ops k, coherent s -> exposed s ops (Some k) = true ->
   let r := run_txn steps_head s ops (TCommit (Some k)) in
   snd r = false /\ read_view (fst r) <> read_view s /\
   read_view (reopen (fst r)) = read_view s /\ c_ents (read_view (fst r)) = c_ents (read_view s).
 Proof. exact head_exposed_torn. Qed.
-
-(* The DATABASE is always before-or-after, from ANY server state (even one already torn) and over
-   unbounded histories of transactions with arbitrary abandons, faults and restarts: what a
-   reopened server is loaded from equals the effect of exactly those transactions whose
-   operations all succeeded and whose commit ran without fault; the backend's view of the
-   entries never differs from the database. (SQLite's rollback of a failed/dropped transaction
-   is the assumed part.) *)
-Theorem C04_database_exact_over_histories : forall h s, be_coherent s ->
+(* the database itself was exact under the old order as well *)
+Theorem C04_prefix_database_exact_over_histories : forall h s, be_coherent s ->
   disk (run_hist steps_head s h) = spec_hist (disk s) h /\ be_coherent (run_hist steps_head s h).
 Proof. exact (hist_disk_gen steps_head head_none head_fault_disk). Qed.
-
-(* The repair: publishing every in-memory cell AFTER the database commit makes the full
-   statement true, and memory reflects the database after every history. *)
-Theorem C04_fixed_order_atomic : forall s ops o, coherent s -> atomic_for steps_fixed s ops o.
-Proof. exact fixed_atomic. Qed.
-Theorem C04_fixed_order_coherent_over_histories : forall h s, coherent s -> coherent (run_hist steps_fixed s h).
-Proof. exact fixed_hist_coherent. Qed.
-Theorem C04_fixed_order_database_exact : forall h s, be_coherent s ->
-  disk (run_hist steps_fixed s h) = spec_hist (disk s) h /\ be_coherent (run_hist steps_fixed s h).
-Proof. exact (hist_disk_gen steps_fixed fixed_none fixed_fault_disk). Qed.
-
-(* Soundness of the run-time tie: whenever the implementation's observations agree with the
-   model of the tree and the case is outside the recorded class, the property's executable
-   predicate holds on the implementation's observations. *)
-Theorem C04_agree_implies_property : forall c : case,
-  agree c = true -> known c = false -> pcheck c = true.
-Proof.
-  intros c Hag Hk. apply agree_pcheck_head; [exact Hag|].
-  destruct c as [before ops ab hit ot ct res mem re]. unfold known in Hk. cbn [tree_fixed negb andb] in Hk.
-  destruct ab; [reflexivity|]. destruct hit; [|reflexivity].
-  destruct res as [|p]; [reflexivity|]. destruct p; try reflexivity. exact Hk.
-Qed.
-(* ... and for a tree with the repaired order no class is needed. *)
-Theorem C04_agree_implies_property_fixed_order : forall c : case,
-  agree_with steps_fixed c = true -> pcheck c = true.
-Proof. exact agree_pcheck_fixed. Qed.
+(* the tie for a pre-fix tree needed the class *)
+Theorem C04_prefix_agree_implies_property : forall c : case, agree_with steps_head c = true ->
+  match c with CTxn before ops None true _ ct 1 _ _ =>
+     match classify (last_label ct) with Some k => exposed (of_disk before) ops (Some k) | None => false end
+   | _ => false end = false ->
+  pcheck c = true.
+Proof. exact agree_pcheck_head. Qed.
